@@ -36,7 +36,7 @@ type c07It struct {
 	W    int    `json:"w"`              // values written by the mapper of this item
 	Act  string `json:"act,omitempty"`  // cancel | cancelnil | panic | ctx | err (Finish: return an error)
 	At   int    `json:"at,omitempty"`   // the act happens after At writes
-	Wait string `json:"wait,omitempty"` // gate awaited before the act
+	Wait string `json:"wait,omitempty"` // gate(s) awaited before the act, comma separated
 	Sig  string `json:"sig,omitempty"`  // gate closed after the act returned
 	Y    int    `json:"y,omitempty"`    // yields before working
 }
@@ -46,7 +46,8 @@ type c07Red struct {
 	Stop     int    `json:"stop"`            // -1 consume all, else stop consuming after Stop values
 	Act      string `json:"act,omitempty"`   // panic | cancel | cancelnil
 	ActEarly bool   `json:"act_early,omitempty"`
-	End      int    `json:"end,omitempty"` // writes at the end
+	End      int    `json:"end,omitempty"`  // writes at the end
+	Wait     string `json:"wait,omitempty"` // gate awaited before the act
 }
 
 type c07Sc struct {
@@ -61,6 +62,9 @@ type c07Sc struct {
 	GenWait    string   `json:"gen_wait,omitempty"`
 	Saturate   bool     `json:"saturate,omitempty"` // mappers linger to overlap as much as the pool allows
 	Expect     []string `json:"expect,omitempty"`   // exact legal outcome keys (gated); nil = generic racing rule
+	// ExpectOrdered replaces Expect when the stamps confirm that every panic was raised strictly after
+	// the reducer's first Write had returned and after the generator function (source feeder) had returned.
+	ExpectOrdered []string `json:"expect_ordered,omitempty"`
 }
 
 func (sc *c07Sc) effWorkers() int {
@@ -123,6 +127,7 @@ type c07Run struct {
 	got      map[c07Val]int
 	cancels  []*c07CancelEv
 	panics   []string
+	panicAt  []int64
 	rwrites  []*c07WriteEv
 	gates    map[string]chan struct{}
 	closed   map[string]bool
@@ -145,9 +150,11 @@ type c07Run struct {
 func c07NewRun(idx int, sc *c07Sc) *c07Run {
 	x := &c07Run{sc: sc, idx: idx, mapSeen: map[int]int{}, wrote: map[c07Val]int{}, got: map[c07Val]int{},
 		gates: map[string]chan struct{}{}, closed: map[string]bool{}, armed: map[string]bool{}, waitOn: map[string]int{}}
-	mk := func(n string) {
-		if n != "" && x.gates[n] == nil {
-			x.gates[n] = make(chan struct{})
+	mk := func(names string) {
+		for _, n := range strings.Split(names, ",") {
+			if n != "" && x.gates[n] == nil {
+				x.gates[n] = make(chan struct{})
+			}
 		}
 	}
 	for _, it := range sc.Items {
@@ -155,6 +162,7 @@ func c07NewRun(idx int, sc *c07Sc) *c07Run {
 		mk(it.Sig)
 	}
 	mk(sc.GenWait)
+	mk(sc.Red.Wait)
 	if sc.Red.Early > 0 {
 		mk("rw")
 	}
@@ -202,7 +210,13 @@ func (x *c07Run) releaseAll() {
 	x.mu.Unlock()
 }
 
-func (x *c07Run) wait(name string) {
+func (x *c07Run) wait(names string) {
+	for _, n := range strings.Split(names, ",") {
+		x.wait1(n)
+	}
+}
+
+func (x *c07Run) wait1(name string) {
 	if name == "" {
 		return
 	}
@@ -272,6 +286,7 @@ func (x *c07Run) doCtxCancel() {
 func (x *c07Run) doPanic(who string) {
 	x.mu.Lock()
 	x.panics = append(x.panics, who)
+	x.panicAt = append(x.panicAt, vk.Seq())
 	x.mu.Unlock()
 	panic(c07Panic{who: who})
 }
@@ -432,6 +447,9 @@ func (x *c07Run) reducer(pipe <-chan any, w mr.Writer, cancel func(error)) {
 		x.closeGate("rw")
 	}
 	doAct := func() {
+		if r.Act != "" {
+			x.wait(r.Wait)
+		}
 		switch r.Act {
 		case "panic":
 			x.doPanic("r")
@@ -475,6 +493,7 @@ func (x *c07Run) generate(source chan<- any) {
 		x.genRet = vk.Seq()
 		x.mu.Unlock()
 		x.leave()
+		x.closeGate("gr")
 	}()
 	for i := 0; i <= x.sc.N; i++ {
 		if i == x.sc.GenPanicAt {
@@ -522,6 +541,7 @@ func (x *c07Run) call() (o c07Outcome) {
 				x.mu.Lock()
 				x.feederRet = vk.Seq()
 				x.mu.Unlock()
+				x.closeGate("gr")
 			}()
 			for i := 0; i < x.sc.N; i++ {
 				src <- i
@@ -591,6 +611,33 @@ func (x *c07Run) key(o c07Outcome) string {
 		return "nil-value"
 	}
 	return "wrong-value"
+}
+
+// lateOrdered reports whether the stamps prove: reducer's first Write returned, the generator
+// function (or the source feeder of MapReduceChan) returned, and only then panics were raised;
+// no cancel and no context event at all.
+func (x *c07Run) lateOrdered() bool {
+	x.mu.Lock()
+	defer x.mu.Unlock()
+	if len(x.cancels) > 0 || x.ctxStart != 0 || x.sc.Ctx == "pre" || x.gateTO != "" {
+		return false
+	}
+	if len(x.rwrites) == 0 || x.rwrites[0].end == 0 || len(x.panicAt) == 0 {
+		return false
+	}
+	gen := x.genRet
+	if x.sc.Entry == "MapReduceChan" {
+		gen = x.feederRet
+	}
+	if gen == 0 {
+		return false
+	}
+	for _, p := range x.panicAt {
+		if p < x.rwrites[0].end || p < gen {
+			return false
+		}
+	}
+	return true
 }
 
 // terminators reports the kinds of terminating events that were executed.
